@@ -1656,7 +1656,7 @@ def check_c14(ctx):
     compared by ArkProd.  The run fails as inconclusive if a generated API variant was not exercised."""
     quick = ctx.tier == "quick"
     b = build_executor(ctx)
-    variants = [("typed", b, dict(CELLS["typed11"]), {}), ("unsafe", b, dict(CELLS["unsafe1"]), {}),
+    variants = [("typed", b, dict(CELLS["typed11"]), {}), ("unsafe", b, dict(CELLS["unsafe1"], unbatchnew=True), {}),
                 ("typedidx", b, dict(CELLS["typed1"], perm=True), {}), ("exchange", b, dict(CELLS["exch8"]), {}),
                 ("mapt", b, dict(CELLS["mapt1"]), {})]
     sources = []
